@@ -221,3 +221,75 @@ func VerifC12_Surrounding(cs int) {
 		VsAssert("missing-parents-are-neutral", VsOr(skipped, ab.ParentsSimilarity == 0.5))
 	}
 }
+
+// VerifC12_Lists: two lists of 3..5 siblings without dates (so that many pairs tie on their score),
+// given names over a two-letter alphabet with one symbolic byte in three of the names on each side:
+// the list similarity is in [0, 1] and the same in both directions, also through the children of two
+// families (SurroundingSimilarity). cs%3, cs/3%3: list lengths 3 + cs%3 and 3 + cs/3%3.
+func VerifC12_Lists(cs int) {
+	na, nb := 3+cs%3, 3+cs/3%3
+	given := []string{"Ann", "Anna", "Bob", "Anne", "Bobby"}
+	mk := func(side string, n int) IndividualNodes {
+		doc := NewDocument()
+		var out IndividualNodes
+		for i := 0; i < n; i++ {
+			name := given[i]
+			if i < 3 {
+				name = given[i][:2] + VsBytesIn(fmt.Sprintf("%s%d", side, i), 1, "nb") + given[i][3:]
+			}
+			ind := doc.AddIndividual(fmt.Sprintf("%s%d", side, i))
+			ind.AddName(name + " /Smith/")
+			out = append(out, ind)
+		}
+		return out
+	}
+	la, lb := mk("a", na), mk("b", nb)
+	opts := NewSimilarityOptions()
+	s1, s2 := la.Similarity(lb, opts), lb.Similarity(la, opts)
+	VsObserve(s1)
+	VsReach("sibling-lists-compared")
+	VsAssert("sibling-list-similarity-in-unit-interval", vIn01(s1))
+	VsAssert("sibling-list-similarity-symmetric", s1 == s2)
+	VsAssert("sibling-list-identical-to-itself", la.Similarity(la, opts) >= 0.75)
+}
+
+// VerifC12_Ties: two lists of four siblings with missing dates, so that many of the 16 pairs have
+// exactly the same score and the order in which equal pairs are taken decides the matching. The left
+// list is fixed (two templates by cs%2); each right-hand sibling is one of 3 names x {no birth, 1900,
+// 1901} by choice, deaths as in the template. Range and symmetry of the list similarity.
+func VerifC12_Ties(cs int) {
+	type person struct{ name, birth, death string }
+	left := []person{{"Jon", "1900", "1970"}, {"John", "", "1970"}, {"Jon", "1901", "1970"}, {"Mary", "1901", ""}}
+	rightDeath := []string{"", "1970", "1970", "1970"}
+	if cs%2 == 1 {
+		left = []person{{"John", "", ""}, {"John", "1900", ""}, {"Mary", "", "1970"}, {"Jon", "", "1970"}}
+		rightDeath = []string{"", "", "1970", ""}
+	}
+	names, births := []string{"Jon", "John", "Mary"}, []string{"", "1900", "1901"}
+	add := func(doc *Document, ptr string, p person) *IndividualNode {
+		ind := doc.AddIndividual(ptr)
+		ind.AddName(p.name + " /Smith/")
+		if p.birth != "" {
+			ind.AddBirthDate(p.birth)
+		}
+		if p.death != "" {
+			ind.AddDeathDate(p.death)
+		}
+		return ind
+	}
+	ld, rd := NewDocument(), NewDocument()
+	var la, lb IndividualNodes
+	for i, p := range left {
+		la = append(la, add(ld, fmt.Sprintf("L%d", i), p))
+	}
+	for i := 0; i < 4; i++ {
+		p := person{names[VsChoose(fmt.Sprintf("name%d", i), 3)], births[VsChoose(fmt.Sprintf("birth%d", i), 3)], rightDeath[i]}
+		lb = append(lb, add(rd, fmt.Sprintf("R%d", i), p))
+	}
+	opts := NewSimilarityOptions()
+	s1, s2 := la.Similarity(lb, opts), lb.Similarity(la, opts)
+	VsObserve(s1)
+	VsReach("tied-lists-compared")
+	VsAssert("tied-list-similarity-in-unit-interval", vIn01(s1))
+	VsAssert("tied-list-similarity-symmetric", s1 == s2)
+}
